@@ -104,7 +104,7 @@ class C18(Check):
             labels = [max(l, 0) for l in labels]
         o = stream(rk, "ops")
         w = {"scale_range": 3, "scale_range_ov": 1, "scale_factor": 2, "shift": 2, "scale_factor_ov": 1, "shift_ov": 1, "revert": 3, "shuffle": 2, "mbf": 1, "split_labels": 1,
-             "split_pieces": 2, "split_wl": 1, "remove": 3, "remove_bad": 1, "concat": 2, "concat_list": 1, "copy": 1, "fresh_empty": 1}
+             "split_pieces": 2, "split_wl": 1, "remove": 3, "remove_bad": 1, "concat": 2, "concat_list": 1, "copy": 1, "fresh_empty": 1}    # (copy and fresh_empty since rounds 12 / 14)
         for k in list(w):
             w[k] = w[k] * o.choice([0, 1, 1, 2])
         kinds = [k for k, v in w.items() for _ in range(v)] or ["scale_range"]
